@@ -218,6 +218,12 @@ package types
 // waited), so everything done under the lock is proved from the monitor invariant alone, and results are stated against the
 // state in which the operation takes effect (atlock). Atomic entry pointers are read and written sequentially here:
 // interference on them between two atomic operations of one method is not modelled.
+// the fields of Map, readOnly and entry are touched by the functions of types/map.go only (checked on every run): the
+// monitor invariant below is established by the zero value (no snapshot, no dirty map: every clause is vacuous), kept by
+// every method of the file that is under contract, and therefore assumed - not required of callers - at their entry.
+// CompareAndSwap and CompareAndDelete are not under contract (they compare values of a type parameter through interfaces);
+// they write entry pointers only through the same compare-and-swap loops and call missLocked under the same guard.
+//@ private Map, readOnly, entry in map.go
 //@ macro mrd(m)       = aload(m.read)
 //@ macro mrhas(m, k)  = mrd(m) != nil && maphas(mrd(m).m, k)
 //@ macro mrval(m, k)  = mapval(mrd(m).m, k)
@@ -377,6 +383,20 @@ package types
 //@   callsite f#1
 //@     assert [C20.map.range.live,C04.map.range.live] maphas(read.m, $0) && mlive(mapval(read.m, $0)) && $1 == deref(aload(mapval(read.m, $0).p))
 //@     assert [C20.map.range.whole] !read.amended || (mrd(m) != nil && !mamended(m) && mrd(m).m == read.m)
+
+// Len, Keys and Values are Range with a collecting callback
+//@ func (*Map).Len()
+//@   props C20
+//@   modifies *
+//@   ensures [C20.map.len.range] calls((*Map).Range) == 1 && arg((*Map).Range, 1, m) == m
+//@ func (*Map).Keys()
+//@   props C20
+//@   modifies *
+//@   ensures [C20.map.keys.range] calls((*Map).Range) == 1 && arg((*Map).Range, 1, m) == m
+//@ func (*Map).Values()
+//@   props C20
+//@   modifies *
+//@   ensures [C20.map.values.range] calls((*Map).Range) == 1 && arg((*Map).Range, 1, m) == m
 
 // ---- the event bus, modularly: Emit and listener registration run no code that changes verified state
 // (the "no re-entrant interference" assumption); every call is an observable event of the caller's trace.
@@ -589,14 +609,22 @@ package types
 
 // ---- event emitter (C20): registrations hold no nil entries; Once fires through a Once of its own registration; removal
 // takes exactly one entry ------------------------------------------------------------------------------------------------
+// registry of an emitter: every event name that is present maps to a non-nil list (addListeners, the only writer that adds,
+// stores the list NewSlice returned). Assumed where the registry is read, proved kept where it is written.
+//@ macro listenersOK(e) = forall k EventName :: mhas(e.evtListeners, k) ==> mval(e.evtListeners, k) != nil
 //@ func (*emmiter).addListeners(evt, listeners)
-//@   trusted "stores into the generic Map (LoadOrStore on a type-parameterised container): outside the subset"
+//@   props C20
 //@   requires e != nil
+//@   assumes listenersOK(e)
 //@   modifies *
+//@   ensures [C20.emit.registry] listenersOK(e)
+//@   ensures [C20.emit.added]    len(listeners) > 0 ==> calls((*Slice).Push) == 1 && mhas(e.evtListeners, evt) && arg((*Slice).Push, 1, s) == mval(e.evtListeners, evt)
 //@ func (*emmiter).RemoveListener(evt, listener)
-//@   trusted "hands a pointer into the emitter object (&e.evtListeners) to the Map methods: outside the subset; its splice callback RemoveListener$1 is under contract"
+//@   props C20
 //@   requires e != nil
+//@   assumes listenersOK(e)
 //@   modifies *
+//@   ensures [C20.emit.remove.absent] !old(mhas(e.evtListeners, evt)) ==> !result && calls((*Slice).RangeAndSplice) == 0
 //@ func (*emmiter).AddListener(evt, listeners)
 //@   props C20
 //@   requires e != nil
